@@ -47,6 +47,8 @@ SCOPE = {"quick": "%d schemes x 21 predicates; 700 datasets (n<=3, m<=2, exhaust
          "thorough": "adds 200 grid schemes {0,.5,1,2,3}^7 (predicates + 3 datasets each), all datasets n<=3 m<=2 x ALL "
                      "schemes, 3000 sampled (n<=6, m<=5) x 2 schemes"}
 CHUNK = 4
+# every 4th case is run a second time with its datasets reached through a history (vlib.t2run._with_histories)
+VIA_EVERY = {"quick": 4, "thorough": 4}
 TIMEOUT = 300
 ASSUMPTIONS = base.ASSUMPTIONS
 
